@@ -9,9 +9,8 @@ CONSTANTS MaxLabels, MaxVals
 \* kind of a declared value: "plain" (the label value is the field name), "renamed" (field: "other string"), or "alias"
 \* (a second field name for the SAME label value as the previous field, e.g.  ok: "success", success: "success")
 ValDef == [kind : {"plain", "renamed", "alias"}]
-LabelDef == {l \in [enum : BOOLEAN, vals : UNION {[1..k -> ValDef] : k \in 1..MaxVals}] :
-               /\ l.vals[1].kind # "alias"
-               /\ \A j \in 2..Len(l.vals) : l.vals[j].kind = "alias" => j = Len(l.vals)}
+\* an alias may stand anywhere after the first value (further values may follow it, another alias may follow it)
+LabelDef == {l \in [enum : BOOLEAN, vals : UNION {[1..k -> ValDef] : k \in 1..MaxVals}] : l.vals[1].kind # "alias"}
 Perms(n) == {p \in [1..n -> 1..n] : \A i, j \in 1..n : i # j => p[i] # p[j]}
 VARIABLES labels, perm
 Init == \E n \in 1..MaxLabels : labels \in [1..n -> LabelDef] /\ perm \in Perms(n)
@@ -21,7 +20,8 @@ N == Len(labels)
 LabelName(i) == <<"l", i>>
 FieldName(i, j) == <<"f", i, j>>
 \* the label VALUE a field stands for
-Root(i, j) == IF labels[i].vals[j].kind = "alias" THEN j - 1 ELSE j          \* the field whose value an alias repeats
+RECURSIVE Root(_, _)
+Root(i, j) == IF labels[i].vals[j].kind = "alias" THEN Root(i, j - 1) ELSE j   \* the field whose value an alias repeats
 ValueOf(i, j) == LET r == Root(i, j) IN IF labels[i].vals[r].kind = "renamed" THEN <<"v", i, r>> ELSE FieldName(i, r)
 Leaves == {p \in [1..N -> 1..MaxVals] : \A i \in 1..N : p[i] <= Len(labels[i].vals)}
 \* Target: the label-name |-> value map of the child a leaf denotes
